@@ -53,7 +53,14 @@ static __thread int tid = -1;
 static long steps, step_limit = 200000;
 static int cond_seq_ctr;
 static int point_after_unlock = 1;
-static int free_switch = 1; // 1: choices among several enabled threads at a blocking point are free (CHESS); 0: non-default picks cost a deviation
+static int free_switch = 1;
+// scope filter: when on, mutex operations on addresses that were not registered are not preemption points
+// (blocking is still modelled). Condition variables, thread create/join, futexes and atomics always are.
+static int scope_on;
+static void* scope_addr[64];
+static int n_scope;
+static void (*timeout_hook)(void);
+static int in_scope(void* a) { if (!scope_on) return 1; for (int i = 0; i < n_scope; i++) if (scope_addr[i] == a) return 1; return 0; } // 1: choices among several enabled threads at a blocking point are free (CHESS); 0: non-default picks cost a deviation
 
 struct Mx { void* addr; int owner; int rec; };
 static struct Mx mt[MAXM];
@@ -151,7 +158,7 @@ static void switch_to(int next)
 static void grant(int t, int by_timeout)
 {
     // make a chosen thread runnable
-    if (by_timeout) { th[t].timedout = 1; th[t].state = T_RUN; }
+    if (by_timeout) { th[t].timedout = 1; th[t].state = T_RUN; if (timeout_hook) timeout_hook(); }
     else if (th[t].state == T_BLK_JOIN) th[t].state = T_RUN;
     else if (th[t].state == T_BLK_MUTEX) th[t].state = T_RUN; // it re-checks the mutex itself
 }
@@ -243,14 +250,14 @@ static void model_release(pthread_mutex_t* m)
 int pthread_mutex_lock(pthread_mutex_t* m)
 {
     if (!managed()) { resolve(); return real_mlock(m); }
-    sched_point("lock");
+    if (in_scope(m)) sched_point("lock");
     model_acquire(m, "lock-blocked");
     return 0;
 }
 int pthread_mutex_trylock(pthread_mutex_t* m)
 {
     if (!managed()) { resolve(); return real_mtrylock(m); }
-    sched_point("trylock");
+    if (in_scope(m)) sched_point("trylock");
     struct Mx* x = mx_get(m);
     if (x->owner < 0) { x->owner = tid; x->rec = 1; return 0; }
     if (x->owner == tid && is_recursive(m)) { x->rec++; return 0; }
@@ -260,7 +267,7 @@ int pthread_mutex_unlock(pthread_mutex_t* m)
 {
     if (!managed()) { resolve(); return real_munlock(m); }
     model_release(m);
-    if (point_after_unlock) sched_point("unlock");
+    if (point_after_unlock && in_scope(m)) sched_point("unlock");
     return 0;
 }
 
@@ -496,3 +503,7 @@ int vxs_end(void)
 long vxs_steps(void) { return steps; }
 void vxs_set_point_after_unlock(int v) { point_after_unlock = v; }
 void vxs_set_free_switch(int v) { free_switch = v; }
+void vxs_scope_clear(void) { n_scope = 0; scope_on = 0; }
+void vxs_scope_add(void* a) { if (n_scope < 64) scope_addr[n_scope++] = a; scope_on = 1; }
+// called whenever the scheduler lets a timed wait time out: the harness advances its mock clock there
+void vxs_set_timeout_hook(void (*f)(void)) { timeout_hook = f; }
